@@ -17,5 +17,5 @@ MANIFEST = {
     "design_ref": "DESIGN.md §5 C03",
     "technique": "Lean 4 model of StateTable::new per cell + Yacc-rule specification; equality correspondence on every cell of every generated automaton",
     "text": "The cell-wise model of StateTable::new (reduce/accept loop in hash iteration order, then edge loop with resolve_shift_reduce) is compared with every cell, view and conflict record of the real table; independently the declarative Yacc rules (earliest production among reductions, then precedence/associativity against the winner, %nonassoc = error, shift when either side lacks precedence) and the conflict counts they imply are compared with the implementation, and CTParserBuilder::build must fail exactly when those counts differ from %expect/%expect-rr (default 0).",
-    "note": "Theorems being extended (see Props/C03.lean). Trusted: Lean kernel, harness dump through the public StateGraph/StateTable API, orchestrator.",
+    "note": "Theorems (Props/C03.lean): table_cell_spec (model cell = Yacc-rule specification), table_order_indep (any item iteration order gives the same cell), conflicts_exact, prec_panic_unreachable, expect_iff. Trusted: Lean kernel, harness dump through the public StateGraph/StateTable API, orchestrator.",
 }
